@@ -218,11 +218,17 @@ func (fr *Frame) applyContract(spec *FuncSpec, key string, sig *types.Signature,
 	}
 	for i, c := range spec.Requires {
 		ctx := &SpecCtx{e: e, names: names, heap: pre, old: pre, pkg: spec.Pkg}
-		g := ctx.evalBool(c.Expr)
-		if e.dry == 0 {
-			e.oblige(fmt.Sprintf("%s#%spre@%s:%d", e.topKey(), fr.callpath, site, i+1), "pre", st.reach, g, fr.pos(in.Pos()), "precondition of "+short+": "+c.Src, c.Tags)
+		parts := ctx.evalSplit(c.Expr)
+		for j, g := range parts {
+			if e.dry == 0 {
+				name := fmt.Sprintf("%s#%spre@%s:%d", e.topKey(), fr.callpath, site, i+1)
+				if len(parts) > 1 {
+					name = fmt.Sprintf("%s/%d", name, j+1)
+				}
+				e.oblige(name, "pre", st.reach, g, fr.pos(in.Pos()), "precondition of "+short+": "+c.Src, c.Tags)
+			}
 		}
-		if g != "true" {
+		if g := and(parts...); g != "true" {
 			st.reach = e.define(fr.prefix+"R", "Bool", and(st.reach, g))
 		}
 	}
